@@ -38,6 +38,9 @@ type ParentStep interface {
 	Parent(p *ParentCtx, merged *Result)
 }
 
+// Flusher properties are told when a child has run its last case (batched work).
+type Flusher interface{ Flush(c *Ctx) }
+
 // ChildEnv lets a property add environment variables for its children.
 type ChildEnv interface{ Env(tier string, workdir string) []string }
 
